@@ -213,3 +213,7 @@ def run(ctx, rep):
     # suspension point inside a frame
     from props import c06
     c06.write_rules(ctx, rep, only="tokio")
+    # "no received byte is lost": bytes leave the async receive buffer only through the decoder - a clear / truncate / reassignment
+    # of self.buffer on the path that resumes after a dropped read throws away the head of a frame (C05's R5.4 for tokio)
+    from props import c05
+    c05.mutators(ctx, rep, "tokio")
